@@ -36,6 +36,18 @@ def stmtToJson : PStmt → Json
       (match alias with | some a => .str a | none => .null), toJson line]
   | .incl f line => Json.arr #[.str "include", .str f, toJson line]
 
+/-- `gin.config.parse_value` on the tokens of a value text alone -/
+def runSingle (toks : List Token) : Json :=
+  let first : P (List Token) := match toks with
+    | [] => .ok []
+    | _ :: _ => advOne (({ kind := TKind.nl } : Token) :: toks)
+  match first with
+  | .error _ => Json.mkObj [("err", .str "syntax")]
+  | .ok ts0 =>
+    match parseSingleValue (toks.length + 2) ts0 with
+    | .ok v => Json.mkObj [("v", pvalToJson v)]
+    | .error _ => Json.mkObj [("err", .str "syntax")]
+
 def run (case : Json) : Json :=
   let toks := (jarr (jfield case "tokens")).map tokOfJson
   -- the constructor of ConfigParser advances onto the first token
@@ -46,7 +58,9 @@ def run (case : Json) : Json :=
   | .error _ => Json.mkObj [("stmts", .arr #[]), ("err", .str "syntax"), ("at_construction", .bool true)]
   | .ok ts0 =>
     let (stmts, e) := parseAll (toks.length + 2) false ts0 []
-    Json.mkObj [("stmts", .arr (stmts.map stmtToJson).toArray),
-      ("err", match e with | none => .null | some _ => .str "syntax")]
+    let single := jfield case "single"
+    Json.mkObj ([("stmts", .arr (stmts.map stmtToJson).toArray),
+      ("err", match e with | none => .null | some _ => .str "syntax")] ++
+      (if jisNull single then [] else [("pv", runSingle ((jarr single).map tokOfJson))]))
 
 end Gin.Drv.ParseDom
